@@ -50,10 +50,10 @@ type result struct {
 }
 
 type exec struct {
-	last    *result
-	glast   *gresult
-	ps      *cs.PeerState // `ps` ops: the peer state of the current case
-	badPick []string      // `ba`/`ps` ops: returned indices that are not set bits of the array picked from
+	last        *result
+	glast       *gresult
+	ps          *cs.PeerState // `ps` ops: the peer state of the current case
+	badPick     []string      // `ba`/`ps` ops: returned indices that are not set bits of the array picked from
 	skippedPick int
 }
 
